@@ -411,3 +411,104 @@ Proof. vm_compute. repeat split; reflexivity. Qed.
 Print Assumptions wabs_step.
 Print Assumptions mem_disk_equiv_writes.
 Print Assumptions restore_mem_eq_restore_disk_writes.
+
+(* ---------------------------------------------------------------- Load_Simu (Save s): for EVERY continuation *)
+(* The loaded object behaves like the original one for every later op list, not only at the instant of loading.
+   The arrays the caller obtained BEFORE the round trip belong to the old object: the comparison is with the original
+   simulation whose caller has dropped them (`drop_handed`); Save itself sets simu.folder (SetFolder f). *)
+Definition drop_handed (s : state) : state :=
+  mkst (heap s) (live s) (mesh s) (nmesh s) (store s) (folder s) (disk s) [] (ghost s).
+
+Lemma inv2_drop_handed : forall c s, inv2 c s -> inv2 c (drop_handed s).
+Proof.
+  intros c s [I HW]. split.
+  - destruct I. constructor; simpl; auto; try (intros D i m ls l H Hin []).
+  - intros k j l H. destruct k; discriminate.
+Qed.
+
+Lemma folder_step : forall c o s1 s2, folder s1 = folder s2 -> folder (step c o s1) = folder (step c o s2).
+Proof.
+  intros c o s1 s2 E.
+  assert (G : forall i s, folder (get_results c i s) = folder s).
+  { intros i s. unfold get_results. destruct (read_entry c s i) as [[h [m ls]]|]; reflexivity. }
+  assert (S : forall i s, folder (set_iter c i s) = folder s).
+  { intros i s. unfold set_iter. destruct (read_entry c s i) as [[h [m ls]]|]; reflexivity. }
+  destruct o; simpl; auto.
+  - destruct (solve_rebinds c); simpl; auto.
+  - rewrite E. destruct (folder s2 =? 0); [destruct (save_copies c)|]; simpl; auto.
+  - rewrite !G. auto.
+  - rewrite !S. auto.
+  - unfold result_q. simpl. rewrite !S. auto.
+  - destruct (nth_error (handed s1) k), (nth_error (handed s2) k); simpl; auto.
+  - rewrite !G. auto.
+  - rewrite !S. auto.
+  - unfold result_q. simpl. rewrite !S. auto.
+  - destruct (nth_error (handed s1) k), (nth_error (handed s2) k); simpl; auto.
+Qed.
+
+Lemma folder_run : forall c ops s1 s2, folder s1 = folder s2 -> folder (run c ops s1) = folder (run c ops s2).
+Proof. induction ops; intros; simpl; auto. apply IHops. apply folder_step. auto. Qed.
+
+Theorem save_load_every_continuation : forall c s f ops', cfg_ok c -> deep_read c = true -> inv2 c s ->
+  let sL := run c ops' (step c (SaveLoad f) s) in
+  let sO := run c ops' (drop_handed (step c (SetFolder f) s)) in
+  absw sL = absw sO /\ store_vals c sL = store_vals c sO /\ folder sL = folder sO /\ length (store sL) = length (store sO).
+Proof.
+  intros c s f ops' OK D I2.
+  destruct (wabs_step (SaveLoad f) OK D I2) as [JL EL].
+  assert (JO : inv2 c (drop_handed (step c (SetFolder f) s))).
+  { apply inv2_drop_handed. apply (wabs_step (SetFolder f) OK D I2). }
+  destruct (wabs_run ops' OK D JL) as [[IL _] AL]. destruct (wabs_run ops' OK D JO) as [[IO _] AO].
+  assert (A : absw (run c ops' (step c (SaveLoad f) s)) = absw (run c ops' (drop_handed (step c (SetFolder f) s)))).
+  { rewrite AL, AO. f_equal. rewrite EL. unfold absw, absv, bnd, vals. simpl. reflexivity. }
+  cbv zeta. split; auto. split; [|split].
+  - rewrite (store_vals_ghost OK IL), (store_vals_ghost OK IO).
+    assert (G : ghost (run c ops' (step c (SaveLoad f) s)) = ghost (run c ops' (drop_handed (step c (SetFolder f) s))))
+      by exact (f_equal (fun w => a_hist (w_abs w)) A).
+    rewrite G. reflexivity.
+  - apply folder_run. reflexivity.
+  - rewrite <- (i_len IL), <- (i_len IO).
+    assert (G : ghost (run c ops' (step c (SaveLoad f) s)) = ghost (run c ops' (drop_handed (step c (SetFolder f) s))))
+      by exact (f_equal (fun w => a_hist (w_abs w)) A).
+    rewrite G. reflexivity.
+Qed.
+
+(* on every reachable state: any history (writes, folder changes, several meshes), then Save/Load, then ANY continuation *)
+Corollary save_load_every_continuation_reachable : forall c ops f ops', cfg_ok c -> deep_read c = true ->
+  let sL := run c ops' (step c (SaveLoad f) (reach c ops)) in
+  let sO := run c ops' (drop_handed (step c (SetFolder f) (reach c ops))) in
+  absw sL = absw sO /\ store_vals c sL = store_vals c sO /\ folder sL = folder sO /\ length (store sL) = length (store sO).
+Proof.
+  intros c ops f ops' OK D. apply save_load_every_continuation; auto.
+  apply (wabs_run ops OK D (inv2_init c)).
+Qed.
+
+(* any read discipline, continuations without user writes *)
+Theorem save_load_every_continuation_nowrites : forall c s f ops', cfg_ok c -> inv c s -> no_writes ops' = true ->
+  absv (run c ops' (step c (SaveLoad f) s)) = absv (run c ops' (step c (SetFolder f) s)) /\
+  store_vals c (run c ops' (step c (SaveLoad f) s)) = store_vals c (run c ops' (step c (SetFolder f) s)).
+Proof.
+  intros c s f ops' OK I W.
+  assert (IL : inv c (step c (SaveLoad f) s)) by (apply inv_saveload; auto).
+  assert (IO : inv c (step c (SetFolder f) s)) by (apply inv_setfolder; auto).
+  assert (A : absv (run c ops' (step c (SaveLoad f) s)) = absv (run c ops' (step c (SetFolder f) s))).
+  { rewrite (abs_run _ OK IL W), (abs_run _ OK IO W).
+    rewrite (@abs_step c (SaveLoad f) s OK I eq_refl), (@abs_step c (SetFolder f) s OK I eq_refl). reflexivity. }
+  split; auto.
+  rewrite (store_vals_ghost OK (inv_run ops' OK (or_intror W) IL)), (store_vals_ghost OK (inv_run ops' OK (or_intror W) IO)).
+  assert (G : ghost (run c ops' (step c (SaveLoad f) s)) = ghost (run c ops' (step c (SetFolder f) s)))
+    by exact (f_equal a_hist A).
+  rewrite G. reflexivity.
+Qed.
+
+Example save_load_continuation_nonvacuous :
+  let c := cfg_demo true in
+  let ops := [SetFolder 1; Sv [5;6]; SaveIter; SetMesh; Sv [7;8]; SaveIter; SetIter 0; Wr 0 9; SetFolder 0; SaveIter]%N in
+  let ops' := [GetResults 2; WriteRetAt 0 0 1; Sv [1;2]; SaveIter; SetIterNeg 3; Wr 1 4; SaveIter; SetFolder 2; ResultQ 1 0; SetIter 4]%N in
+  let sL := run c ops' (step c (SaveLoad 3) (reach c ops)) in
+  let sO := run c ops' (drop_handed (step c (SetFolder 3) (reach c ops))) in
+  absw sL = absw sO /\ store_vals c sL = store_vals c sO /\ length (store sL) = 5 /\
+  a_vals (w_abs (absw sL)) = [[7;7]; [4;4]]%N /\ a_mesh (w_abs (absw sL)) = 1.
+Proof. vm_compute. repeat split; reflexivity. Qed.
+Print Assumptions save_load_every_continuation.
+Print Assumptions save_load_every_continuation_nowrites.
